@@ -94,3 +94,36 @@ Theorem verify_any_position want a b spki : sha256 spki = want -> verify want (a
 Proof.
   intros H. unfold verify. apply existsb_exists. exists spki. split; [apply in_or_app; right; left; reflexivity | apply beq_eq; exact H].
 Qed.
+
+(** ** Redirects: every hop is held to the pin *)
+Lemma go_hops_sent_prefix fp hops k :
+  nth_error (go_hops fp hops) k = Some Sent ->
+  forall j, (j <= k)%nat -> exists chain trusted, nth_error hops j = Some (chain, trusted) /\ go_call fp chain trusted = Sent.
+Proof.
+  revert k. induction hops as [|[chain trusted] r IH]; intros k H j Hj.
+  - destruct k; discriminate.
+  - cbn [go_hops] in H. case_eq (go_call fp chain trusted); intros E; rewrite E in H.
+    + destruct j as [|j].
+      * exists chain, trusted. split; [reflexivity | exact E].
+      * destruct k as [|k]; [inversion Hj|]. cbn [nth_error] in H |- *. apply (IH k H j). apply le_S_n. exact Hj.
+    + destruct k as [|k]; [discriminate|]. destruct k; discriminate.
+    + destruct k as [|k]; [discriminate|]. destruct k; discriminate.
+    + destruct k as [|k]; [discriminate|]. destruct k; discriminate.
+Qed.
+
+(** With a fingerprint configured, the k-th server a call is led to receives a request only if that server AND every
+    server before it presented a certificate with the pinned key. *)
+Theorem redirects_are_pinned fp want hops k : fp <> [] -> parse_fp fp = Some want ->
+  nth_error (go_hops fp hops) k = Some Sent ->
+  forall j, (j <= k)%nat -> exists chain trusted, nth_error hops j = Some (chain, trusted) /\ verify want chain = true.
+Proof.
+  intros Hfp Hp H j Hj. destruct (go_hops_sent_prefix fp hops k H j Hj) as (chain & trusted & Hn & Hs).
+  exists chain, trusted. split; [exact Hn|]. unfold go_call in Hs. destruct fp as [|c fp']; [congruence|].
+  rewrite Hp in Hs. destruct (verify want chain); [reflexivity | discriminate].
+Qed.
+
+Lemma go_hops_length fp hops : (length (go_hops fp hops) <= length hops)%nat.
+Proof.
+  induction hops as [|[chain trusted] r IH]; [apply le_n|]. cbn [go_hops length].
+  destruct (go_call fp chain trusted); cbn [length]; try (apply le_n_S; exact IH); apply le_n_S, Nat.le_0_l.
+Qed.
